@@ -103,12 +103,7 @@ def _counted_condition(atom):
             return x[2]
         if tag(x) in ('col', 'cols') and tag(x[1]) == 'mask':
             return x[1][2]
-    if tag(atom) == 'mcall' and atom[2] == 'sum' and not atom[3] and T.boolish(atom[1]):
-        return atom[1]
-    if tag(atom) == 'call' and atom[1] in (('g', 'numpy.sum'), ('g', 'numpy.count_nonzero'), ('g', 'builtins.sum')) \
-            and atom[2] and T.boolish(atom[2][0]):
-        return atom[2][0]
-    return None
+    return T.count_cond(atom)        # mask.sum(), np.sum(mask), np.count_nonzero(mask), len(x[mask]) ... (array wrappers stripped)
 
 
 def _count_is_cropped(count, evs):
